@@ -20,6 +20,9 @@ import (
 	"github.com/algorand/go-algorand/config"
 	"github.com/algorand/go-algorand/data/basics"
 	"github.com/algorand/go-algorand/data/bookkeeping"
+	"github.com/algorand/go-algorand/data/transactions"
+	"github.com/algorand/go-algorand/data/txntest"
+	"github.com/algorand/go-algorand/ledger/eval"
 	"github.com/algorand/go-algorand/ledger/ledgercore"
 	"github.com/algorand/go-algorand/ledger/store/trackerdb"
 	"github.com/algorand/go-algorand/protocol"
@@ -67,6 +70,45 @@ func cpAddBlock(b *hlSim, blk bookkeeping.Block) error {
 	}
 	b.tr("block %d", blk.Round())
 	return nil
+}
+
+// cpStepWith is hlSim.step with a hook that may offer scripted groups after the PRNG-chosen ones.
+func cpStepWith(a *hlSim, scripted func(ev *eval.BlockEvaluator)) *ledgercore.ValidatedBlock {
+	a.lastBlockGroups = a.lastBlockGroups[:0]
+	ev, err := a.startEval()
+	if err != nil {
+		a.c.Harness("StartEvaluator: %v", err)
+	}
+	for i, n := 0, a.g.groupsPerBlock(); i < n; i++ {
+		a.g.offerRandom(ev)
+	}
+	if scripted != nil {
+		scripted(ev)
+	}
+	vb, err := a.finishBlock(ev)
+	if err != nil {
+		a.c.Violation("generated-block-rejected", map[string]any{"round": a.m.latest + 1, "error": err.Error(), "config": a.cfg.String(), "trace": a.traceTail(30)})
+		a.c.Harness("cannot continue after %v", err)
+	}
+	return vb
+}
+
+// cpOfferAuth offers a single scripted transaction, signed by whoever the sender is currently
+// rekeyed to (the PRNG workload rekeys accounts; the evaluator checks the authorizer).
+func cpOfferAuth(a *hlSim, ev *eval.BlockEvaluator, kind string, tx txntest.Txn) error {
+	tx.Note = a.g.nextNote()
+	if tx.GenesisHash.IsZero() {
+		tx.GenesisHash = a.l.GenesisHash()
+	}
+	if tx.FirstValid == 0 {
+		tx.FirstValid = ev.Round()
+	}
+	tx.FillDefaults(ev.ConsensusParams())
+	stx := tx.SignedTxn()
+	if auth := a.m.acct(a.m.latest, tx.Sender).AuthAddr; !auth.IsZero() && auth != tx.Sender {
+		stx.AuthAddr = auth
+	}
+	return a.offerSigned(ev, kind, []transactions.SignedTxn{stx})
 }
 
 // cpFlush commits everything eligible through the ledger's own commit queue (the single
